@@ -3,7 +3,7 @@ Reference X: coefficient dictionaries over Python ints / Fractions (schoolbook).
 substitution used by UIntPoly multiplication (sizes around powers of two, mixed signs, all -(2**k))."""
 from fractions import Fraction
 from vlib import gen
-from vlib.gen import I, FR, S, X, Y
+from vlib.gen import I, FR, S, X, Y, Z
 from vlib.core import Check, run_cases, run_one, check_process_reports, crash_key, render
 
 
@@ -257,4 +257,105 @@ class C(Check):
                 self.violation(key, dict(program=prog, problem=what, config='asan'))
             if not probs and len(self.samples) < 4 and kind != 'uexpr' and a and b and len(a) > 2:
                 self.sample(dict(a=str(sorted(a.items()))[:200], b=str(sorted(b.items()))[:200], ops_checked=13))
+        self.conversions()
         self.min_evals = 5000
+
+
+# ------------------------------------------------------------------ expression -> polynomial -> expression (value oracle)
+W_ = S('w')
+
+
+def conv_case(rng):
+    """-> (kind, generator recipe, expression recipe, label)"""
+    from .c09 import poly_recipe
+    r = rng.random()
+    if r < 0.25:
+        return 'uint', X, poly_recipe(rng, rng.choice((2, 3)), 1), 'integer polynomial expression'
+    if r < 0.35:
+        e = ('add',) + tuple(('mul', FR(Fraction(rng.randint(-9, 9), rng.choice((1, 2, 3, 7)))), ('pow', ('add', X, I(rng.randint(-2, 2))), I(rng.randint(0, 4)))) for _ in range(rng.choice((2, 3))))
+        return 'urat', X, e, 'rational polynomial expression'
+    parts_pool = [Y, Z, W_, ('mul', I(2), Y), ('mul', I(-1), Z), FR(Fraction(1, 2)), ('mul', Y, Z)]
+    coefs = [I(1), Y, I(2), ('add', Y, I(1)), ('mul', I(-3), Z), ('sin', Y)]
+
+    def parts():
+        return rng.sample(parts_pool, rng.choice((0, 0, 1, 2, 2, 3)))
+    if r < 0.7:            # generator x, exponents n + symbolic parts
+        g = X
+        def term():
+            ex = [I(rng.randint(0, 4))] + parts()
+            rng.shuffle(ex)
+            return ('mul', rng.choice(coefs), ('pow', X, ('add',) + tuple(ex) if len(ex) > 1 else ex[0]))
+        lbl = 'generator x, symbolic exponent parts'
+    elif r < 0.88:         # generator 2**x
+        g = ('pow', I(2), X)
+        def term():
+            ex = [('mul', I(rng.randint(1, 3)), X)] + parts()
+            rng.shuffle(ex)
+            return ('mul', rng.choice(coefs), ('pow', I(2), ('add',) + tuple(ex) if len(ex) > 1 else ex[0]))
+        lbl = 'generator 2**x'
+    else:                  # generator x**(1/2)
+        g = ('pow', X, FR(Fraction(1, 2)))
+        def term():
+            return ('mul', rng.choice(coefs), ('pow', X, FR(Fraction(rng.randint(0, 7), 2))))
+        lbl = 'generator x**(1/2)'
+    e = ('add',) + tuple(term() for _ in range(rng.choice((1, 2, 3))))
+    k = rng.random()
+    if k < 0.2:
+        e = ('mul', e, ('add', g, rng.choice(coefs)))
+    elif k < 0.3:
+        e = ('pow', e, I(2))
+    return 'uexpr', g, e, lbl
+
+
+def conversions(self):
+    from . import _value
+    rng = self.rng
+    cases, meta = [], {}
+    for k in range(self.q(2500, 60000)):
+        kind, g, e, lbl = conv_case(rng)
+        stmts = [('let', 'e', e), ('emit', '$e'), ('let', 'p', (kind + '_from_basic', '$e', g)), ('emit', (kind + '_as_symbolic', '$p')), ('emit', '$p')]
+        cid = 'v%d' % k
+        cases.append((cid, stmts))
+        meta[cid] = (kind, lbl, stmts)
+    res, reps = run_cases('asan', cases, tag='c21v', timeout=60)
+    check_process_reports(self, reps)
+    items = []
+    seen = set()
+    for cid, (kind, lbl, stmts) in meta.items():
+        r = res.get(cid)
+        if r is None:
+            self.inconclusive += 1
+            continue
+        self.note_asserts(r)
+        if r.status == 'crashed':
+            key = dict(crash_key(r), kind=kind, clause='crash', op='from_basic')
+            if str(key) not in seen:
+                seen.add(str(key))
+                self.violation(key, dict(program=[render(s) for s in stmts], crash=r.crash, config='asan'))
+            continue
+        if r.status != 'ok' or r.s(1) is None or r.s(1).st != 'ok':
+            self.inconclusive += 1
+            continue
+        if r.s(3) is None or r.s(3).st != 'ok':
+            self.count('conversion-declined:' + lbl)
+            continue
+        items.append((cid, r.s(1).v['t'], r.s(3).v['t'], {'x': 'pos', 'y': 'pos', 'z': 'pos', 'w': 'pos'}))
+    for cid, v, d in _value.judge_items(items, self.seed, kind='pos'):
+        kind, lbl, stmts = meta[cid]
+        if v == 'inconclusive':
+            self.inconclusive += 1
+            continue
+        self.evaluations += 1
+        self.count('converted:' + lbl)
+        if kind == 'uexpr':
+            self.nontriv(render(stmts[0]))
+        if v == 'diff':
+            key = dict(clause='value', op='from_basic->as_symbolic', kind=kind, input=lbl)
+            if str(key) in seen:
+                continue
+            seen.add(str(key))
+            r = res[cid]
+            self.violation(key, dict(program=[render(s) for s in stmts], expr=r.s(1).v['s'], back=r.s(3).v['s'], detail=str(d)[:300], config='asan'))
+
+
+C.conversions = conversions
